@@ -185,7 +185,7 @@ class Check:
             broken.append(f"{len(self.inconclusive)} inconclusive of {self.evaluations} cases")
         if len(self.nontrivial) < min_nontrivial:
             broken.append(f"only {len(self.nontrivial)} distinct non-trivial cases")
-        if not self.replay_case:
+        if not self.replay_case and not self.args.only:   # debugging subsets and replays never overwrite the evidence of a full run
             os.makedirs(os.path.join(OUT_ROOT, "evidence"), exist_ok=True)
             text = jdump(ev, indent=1)
             try:
